@@ -26,6 +26,10 @@ class SigmaYAMLLoader(yaml.CSafeLoader):
         keys = set()
         for k, v in node.value:
             key = self.construct_object(k, deep=deep)
+            try:
+                hash(key)
+            except TypeError:
+                raise yaml.error.YAMLError(f"Unhashable key '{key}'")
             if key in keys:
                 raise yaml.error.YAMLError(f"Duplicate key '{key}'")
             else:
